@@ -61,6 +61,7 @@ func checkCmd(args []string) int {
 		entries := vc.RouteCorpus(corpusDir, *tier, seed)
 		entries = append(entries, vc.BaseFormCorpus(corpusDir)...)
 		entries = append(entries, vc.FixtureCorpus(*repo, "router", "path_wildcard", "double_wildcard", "petstore")...)
+		cr.CheckBasePathSource()
 		cr.CheckRoutingFamily(entries)
 		return cr.Finish("proof", checkerCmd, commonTrusted, "one obligation per (emitted function, return site, clause) of the route*/ServeHTTP/splitPath contracts; all requests are quantified, programs are the enumerated corpus")
 	}
@@ -86,6 +87,7 @@ func checkCmd(args []string) int {
 		entries := vc.RouteCorpus(corpusDir, "quick", seed)
 		entries = append(entries, vc.BaseFormCorpus(corpusDir)...)
 		entries = append(entries, vc.FixtureCorpus(*repo, "router", "middleware")...)
+		cr.CheckBasePathSource()
 		cr.CheckRoutingFamily(entries)
 		return cr.Finish("proof", checkerCmd, commonTrusted, "quoting rule obligations of encodeRawFileAsString (all file contents) + ServeHTTP/ensures#spec per corpus package (all requests)")
 	case "C01":
